@@ -22,6 +22,10 @@
        6 k         get_properties(sample=k) -> 0 ms (attributes of that file) | 1 IOError | 2 ValueError
        7           FilesInv checker on the first directory -> 0 | 1
        8 s e       Spec: runs (files_abs dir0) s e   (same format as query 1; cost ~ e - s)
+   Inside Coq (e.g. for C01): `read ExactRational c fs s e : list (Z * list V)` with
+   `c := mkCfg n d fc sc` and `fs : list (rfile V)` built with `mkFile sub ms index data`, files in
+   ascending file time; `Proofs.ReaderProofs.reader_refines : FilesInv c fs -> read ExactRational c fs
+   s e = runs (files_abs fs) s e`, and `files_inv_b_sound` turns the executable check into FilesInv.
    run 2 [k; n; d] -> [secs exact; ms exact; secs longdouble; ms longdouble]   (time of a sample) *)
 From Coq Require Import ZArith List.
 From DRF Require Import Base.Runs Model.Ld80 Model.ReaderCore.
